@@ -1,8 +1,11 @@
 package main
 
 import (
+	"bytes"
 	"encoding/binary"
 	"fmt"
+	"strings"
+	"time"
 )
 
 // c07 "pipeopen": the release clause under pipelining. After INIT (answered), n OPEN/OPENDIR requests for existing
@@ -64,5 +67,46 @@ func c07PipeMutations(thorough bool) []c07Mut {
 			}
 		}
 	}
+	// pipewrite: many transfers still unanswered when the stream ends (more than the packet manager's channels hold)
+	for _, n := range []int{12, 24, 48} {
+		for r := 0; r < 2; r++ {
+			out = append(out, c07Mut{"pipewrite", n, r, 0})
+		}
+	}
 	return out
+}
+
+// c07 "pipewrite": INIT, OPEN for writing (answered), then n WRITE requests on the handle in one go - 200 KiB each on the os
+// server, 2000 bytes each on a backend whose WriteAt takes 20 ms - and the end of the stream right behind them, without the
+// peer waiting for a single reply. All requests were received whole before the end: Serve has to finish them, answer or not,
+// and return: no goroutine left behind, the file closed, every write in the file.
+func c07PipeWrite(srv string, alloc bool, work string, n int) string {
+	b := &c07Builder{srv: srv, s: &c07Session{name: "pipewrite", handles: map[int]string{}}}
+	b.s.frames = append(b.s.frames, rawInit())
+	h := b.open("pipewrite.bin", 0x1a, 0, nil, true)
+	size := 200 << 10
+	if srv == "req" {
+		size = 2000
+		c11WriteDelay = 20 * time.Millisecond
+		defer func() { c11WriteDelay = 0 }()
+	}
+	var tail []byte
+	for k := 0; k < n; k++ {
+		data := bytes.Repeat([]byte{byte('a' + k%26)}, size)
+		tail = append(tail, rawWrite(uint32(500+k), h, uint64(k*size), data)...)
+	}
+	_, snap, problems := c07Stream(srv, alloc, work, b.s.frames, tail)
+	if len(problems) > 0 {
+		return fmt.Sprintf("FAIL pipelined-writes(n=%d): ", n) + problems[0]
+	}
+	// every write is in the file
+	for k, v := range snap {
+		if strings.HasSuffix(k, "pipewrite.bin") {
+			if !strings.Contains(v, fmt.Sprintf("size=%d ", n*size)) {
+				return fmt.Sprintf("FAIL pipelined-writes(n=%d): the file is not the %d bytes written: %s", n, n*size, truncs(v))
+			}
+			return "ok"
+		}
+	}
+	return "ok"
 }
